@@ -170,6 +170,11 @@ ROT = {
                ('\\(', '\\)'))], {}, False),
     'display_between': (['cat', M('a', 0), ' ', T('x'), '\n', ['G', '\\[ u = v \\]', 'V-V-V'], '\n',
                          M('b', 1)], {}, False),
+    # environments nested in an inline formula, with maths behind their \end
+    'nested_env': (['cat', M('\\begin{pmatrix} a \\\\ b \\end{pmatrix} x', 0), ' ',
+                    M('\\left(\\begin{array}{c} u \\end{array}\\right).', 1), ' ', M('c', 2), ' ',
+                    M('\\begin{zzunknown} d \\end{zzunknown} + e,', 3), ' ', M('f', 4)], {'pack': 'amsmath'},
+                   False),
     'heading': (['cat', M('a', 0), ' ', ['heading', ['cat', T('T '), M('b', 1)]], '\n', M('c', 2)], {},
                 False),
 }
